@@ -114,6 +114,9 @@ def replace_typevars(ty: t.Any,
         return replacements.get(ty, ty)
     if isinstance(ty, t.Sequence) and not isinstance(ty, (str, bytes)):
         return type(ty)(replace_typevars(t, replacements) for t in ty)  # type: ignore
+    if isinstance(ty, (dict, t.Mapping)):
+        # struct type literal
+        return type(ty)({k: replace_typevars(v, replacements) for (k, v) in ty.items()})  # type: ignore
 
     base = t.get_origin(ty) or ty
     args = t.get_args(ty)
